@@ -181,6 +181,11 @@ def check_distribution(o, orf, m, n, sid, tp, m_expected, dp_limit, tag):
             d = orf._parametric["data"][tp[k]]
             idx = np.argsort(d[:, 2])
             dp = float(np.interp(m[k], d[idx, 2], d[idx, 3]))
+            if not np.isfinite(dp):
+                # the parametric table itself has no pressure drop at this flow (NaN rows of the parametric sweep at
+                # very low flow): there is nothing to compare the limit with
+                o.classes["dp_undefined_in_table"] = True
+                continue
             o.check(dp <= lim * (1 + 1e-9), "pressure_drop_limit_exceeded" + tag,
                     "assembly %d (group %d): flow %.6g kg/s -> %.6g Pa > limit %.6g Pa" % (sid[k], g[k], m[k], dp, lim))
         o.classes["dp_limited"] = bool(np.any(orf._dp_limit))
